@@ -192,6 +192,12 @@ def run_elem(R, J, name, tokens, full, reduced):
                 valid = tok
         if valid is not None:
             bad = [tk for tk in toks if tk['kind'] == 'special'][:1] + [dict(kind='str', s=cps('zz-not-a-literal'), m=0, e=0)]
+            vv = pyvalue(valid)
+            if isinstance(vv, int) and not isinstance(vv, bool):
+                # a value that compares equal to the stored one but is of another type (1 == 1.0 == True)
+                bad.append(dict(kind='float', s=[], m=vv * 10, e=-1))
+                if vv in (0, 1):
+                    bad.append(dict(kind='special', s=cps('True' if vv == 1 else 'False'), m=0, e=0))
             for tok in bad + [dict(kind='none', s=[], m=0, e=0)]:
                 e = fresh()
                 n0 = new_event(e)
